@@ -432,12 +432,19 @@ func interesting(pc *pCase) (bool, string) {
 		}
 	}
 	shape := fmt.Sprintf("%d controllers, %d methods, %d types, %d imported type uses", len(pc.Ctrls), len(pc.Methods), len(pc.Types), imported)
-	return len(pc.Ctrls) >= 2 || imported > 0, shape
+	grouped := false
+	for _, m := range pc.Methods {
+		if len(m.Groups) > 0 {
+			grouped = true
+		}
+	}
+	return len(pc.Ctrls) >= 2 || imported > 0 || grouped, shape
 }
 
 // featureClass names what a project has that the session mechanisms are sensitive to:
 //   "lazy-outside": a controller in a file no glob matches, in a package no glob touches but a matched route's type names
 //   "composite":    map / generic / slice-of-declared types in signatures (composite graph nodes)
+//   "twins":        controllers sharing a struct name across packages      "grouped": identifier lists in a signature
 //   "multi":        several controllers            "plain": the rest
 func featureClass(pc *pCase) string {
 	inside, outsidePk := map[string]bool{}, map[string]bool{}
@@ -474,9 +481,31 @@ func featureClass(pc *pCase) string {
 			}
 		}
 	}
+	// same-named controllers in two packages (every per-name memo is ambiguous there); identifier lists in a signature
+	// (several parameters share one AST field)
+	twins, grouped := false, false
+	names := map[string]string{}
+	for _, c := range pc.Ctrls {
+		if c.Outside {
+			continue
+		}
+		if pk, seen := names[c.Name]; seen && pk != c.Pkg {
+			twins = true
+		}
+		names[c.Name] = c.Pkg
+	}
+	for _, m := range pc.Methods {
+		if len(m.Groups) > 0 && !out[m.Ctrl] {
+			grouped = true
+		}
+	}
 	switch {
 	case lazy:
 		return "lazy-outside"
+	case twins:
+		return "twins"
+	case grouped:
+		return "grouped"
 	case composite:
 		return "composite"
 	case len(pc.Ctrls) >= 2:
